@@ -627,3 +627,48 @@ func (d *Device) WriteRangeTo(path string, lo, hi int64) error {
 	}
 	return nil
 }
+
+// FirstDiff returns the offset of the first byte that differs between two devices of the same
+// size (only materialised pages can differ from the background), or -1.
+func (d *Device) FirstDiff(o *Device) int64 {
+	if d.size != o.size {
+		return 0
+	}
+	d.mu.Lock()
+	defer d.mu.Unlock()
+	o.mu.Lock()
+	defer o.mu.Unlock()
+	idx := map[int64]bool{}
+	for pi := range d.pages {
+		idx[pi] = true
+	}
+	for pi := range o.pages {
+		idx[pi] = true
+	}
+	keys := make([]int64, 0, len(idx))
+	for pi := range idx {
+		keys = append(keys, pi)
+	}
+	sort.Slice(keys, func(i, j int) bool { return keys[i] < keys[j] })
+	a := make([]byte, pageSize)
+	b := make([]byte, pageSize)
+	for _, pi := range keys {
+		base := pi << pageBits
+		if pg, ok := d.pages[pi]; ok {
+			copy(a, pg[:])
+		} else {
+			d.bgFill(a, base)
+		}
+		if pg, ok := o.pages[pi]; ok {
+			copy(b, pg[:])
+		} else {
+			o.bgFill(b, base)
+		}
+		for i := range a {
+			if a[i] != b[i] {
+				return base + int64(i)
+			}
+		}
+	}
+	return -1
+}
